@@ -456,7 +456,17 @@ def _id_dependence(key, op, shape, variant, tie, inp):
         for j in range(n):
             eq[H.pname('mu', i, j)] = inp[H.pname('mu', 0, 0)]
             eq[H.pname('sg', i, j)] = inp[H.pname('sg', 0, 0)]
-    for vals in (inp, eq, dict(inp, tau=0.5 * inp['beta']), dict(eq, tau=0.5 * inp['beta'])):
+    b_ = inp['beta']
+    mixed = dict(inp)
+    for i, n in enumerate(shape):
+        for j in range(n):
+            mixed[H.pname('sg', i, j)] = (0.01 if (i + j) % 2 == 0 else 2.0) * b_
+    trials = [(inp, None), (eq, None)]
+    for tau_ in (0.5 * b_, 2.0 * b_):
+        for base_ in (inp, eq, mixed):
+            for ls_ in (None, True):
+                trials.append((dict(base_, tau=tau_), ls_))
+    for vals, force_ls in trials:
         outs = []
         for same_ids in (False, True):
             m = Model(beta=vals['beta'], kappa=vals['kappa'], tau=vals['tau'])
@@ -471,12 +481,14 @@ def _id_dependence(key, op, shape, variant, tie, inp):
                     kw['tau'] = vals.get('t1', 0.0) if variant[0] == 'sym' else variant[0]
                 if variant[1] is not None:
                     kw['limit_sigma'] = variant[1]
+                if force_ls:
+                    kw['limit_sigma'] = True
             try:
                 outs.append(list(H._flatten(_call(m, op, teams, _ranks_for(shape, tie) if op == 'rate' else None, **kw))))
             except Exception as e:  # noqa: BLE001
                 outs.append(repr(e))
         if outs[0] != outs[1]:
-            return f'with values {[vals[n_] for n_ in sorted(vals) if n_.startswith(("mu_", "sg_"))]}: distinct ids give {outs[0]}, equal ids give {outs[1]}'
+            return f'with values {[vals[n_] for n_ in sorted(vals) if n_.startswith(("mu_", "sg_"))]}, tau={vals["tau"]}' + (', limit_sigma=True' if force_ls else '') + f': distinct ids give {outs[0]}, equal ids give {outs[1]}'
     return None
 
 
